@@ -27,7 +27,14 @@ build_mapsim() {
   (cd "$V/sim" && go build -modfile="$B/harness.mod" -o "$out/maprewrite" ./cmd/maprewrite) || infra "build of maprewrite failed"
   "$out/maprewrite" -repo "$REPO" -pkg stack -out "$out/src" || infra "maprewrite failed"
   (cd "$V/sim" && go build -modfile="$B/harness.mod" -tags mapsim -overlay "$out/src/overlay.json" -o "$out/vcheck" ./cmd/vcheck) || infra "mapsim build of vcheck failed"
-  (cd "$REPO" && go build -overlay "$out/src/overlay.json" -o "$out/pp" ./cmd/pp) || infra "mapsim build of pp failed"
+  # the pp binary: also the command's own package (console rendering, CLI loop)
+  (cd "$REPO" && "$out/maprewrite" -repo "$REPO" -pkg internal -out "$out/src-internal") || infra "maprewrite (internal) failed"
+  python3 - "$out/src/overlay.json" "$out/src-internal/overlay.json" "$out/overlay-pp.json" <<'PY' || infra "overlay merge failed"
+import json,sys
+a=json.load(open(sys.argv[1])); b=json.load(open(sys.argv[2]))
+a["Replace"].update(b["Replace"]); json.dump(a,open(sys.argv[3],"w"),indent=1)
+PY
+  (cd "$REPO" && go build -overlay "$out/overlay-pp.json" -o "$out/pp" ./cmd/pp) || infra "mapsim build of pp failed"
 }
 # build_clisim <out>: test binary of $REPO/internal with the simulator's driver overlaid
 build_clisim() {
